@@ -40,7 +40,7 @@ FUNCTIONS = [
     "pyxel.data_structure.photon:Photon.dtype",
 ]
 STUBS = ["np -> vx.symnp in pyxel.data_structure.*: element values symbolic, dtype/shape/casting/broadcast verdicts from real numpy (ghost arrays)"]
-OUTSIDE = ["NaN and infinite values (real arithmetic)", "3-D (multi-wavelength) photons go through a recording stand-in for xarray.DataArray (dims, coords, dtype, values)",
+OUTSIDE = ["NaN and infinite values are covered for the photon sign rule only (IEEE layer); elsewhere values are reals", "3-D (multi-wavelength) photons go through a recording stand-in for xarray.DataArray (dims, coords, dtype, values)",
            "histories are covered by induction on the validity invariant, not enumerated"]
 ASSUMPTIONS = ["values are finite reals / integers"]
 EXPLANATION = "invariant: a container is empty or holds an array of the detector shape and an allowed dtype (photon >= 0 after assignment)"
@@ -70,6 +70,8 @@ def tasks(tier, seed):
             out.append({"fn": "equality", "kwargs": {"kind": kind, "a": a, "b": b, "other": kind}, "label": f"{kind}/eq/{a},{b}"})
         out.append({"fn": "equality", "kwargs": {"kind": kind, "a": "full", "b": "full", "other": "signal" if kind != "signal" else "pixel"},
                     "label": f"{kind}/eq/other_kind"})
+    for op in ("set", "update", "iadd", "add"):
+        out.append({"fn": "photon_ieee", "kwargs": {"op": op}, "label": f"photon/ieee/{op}", "solver": "cvc5", "cross_check": False, "caps": {"solver_timeout_ms": 60000}})
     for pre in ("empty", "full3d", "full2d"):
         for op in ("set3d", "iadd"):
             for arg in ("ok", "int_dtype", "wrong_yx", "wrong_dims", "no_coords", "array2d"):
@@ -261,6 +263,39 @@ def photon3d(pre, op, arg):
             vx.prove("C13/photon3d/valid_operation_accepted", raised is None, case=lab, error=repr(raised)[:100])
 
 
+def photon_ieee(op):
+    """IEEE-754 values (NaN, +-inf, -0.0 included): after an assignment no stored photon count is negative."""
+    import pyxel.data_structure as ds
+
+    shape = (1, 3)
+    from pyxel.detectors import CCDGeometry
+
+    with Patch() as p:
+        p.numpy(*DATA_MODULES)
+        c = ds.Photon(CCDGeometry(row=shape[0], col=shape[1]))
+        vals = [vx.fp(f"v{i}") for i in range(3)]
+        arg = symnp.SymArray.from_elems(vals, shape, np.float64)
+        raised = None
+        try:
+            if op == "set":
+                c.array = arg
+            elif op == "update":
+                c.update(arg)
+            elif op == "iadd":
+                c += arg
+            else:
+                c + arg  # noqa: B018
+        except Exception as e:  # noqa: BLE001
+            raised = e
+        if raised is None and c._array is not None:
+            stored = symnp.asarray(c._array).elems()
+            vx.prove(f"C13/photon/assign_nonnegative/ieee/{op}", vx.all_of([~(e < 0) for e in stored]))
+            # values that are not negative are stored as given
+            vx.prove(f"C13/photon/ieee_keeps_nonnegative_values/{op}", vx.all_of([vx.implies(v >= 0, e == v) for e, v in zip(stored, vals)]))
+        elif raised is not None:
+            vx.prove(f"C13/photon/ieee_reject_keeps_content/{op}", c._array is None)
+
+
 def simple_ops(kind, pre):
     with Patch() as p:
         p.numpy(*DATA_MODULES)
@@ -380,6 +415,28 @@ def replay(oid, kwargs, model, data):
             same = (a is None) if snap is None else (a is not None and a.shape == SHAPE and a.dtype == snap.dtype and np.array_equal(a, snap))
             return (not same), det
         return False, det
+    if fn == "photon_ieee":
+        from pyxel.detectors import CCDGeometry
+
+        c = _types("photon")(CCDGeometry(row=1, col=3))
+        arr = np.array([[float(model.get(f"v{i}", 0.0)) for i in range(3)]])
+        op = kwargs["op"]
+        try:
+            if op == "set":
+                c.array = arr
+            elif op == "update":
+                c.update(arr)
+            elif op == "iadd":
+                c += arr
+            else:
+                c + arr  # noqa: B018
+        except Exception as e:  # noqa: BLE001
+            return c._array is not None, {"raised": repr(e)}
+        st = c._array
+        bad = st is not None and bool((st < 0).any())
+        if "keeps_nonnegative" in oid and st is not None:
+            bad = bad or any(v >= 0 and not (s_ == v) for s_, v in zip(st.ravel(), arr.ravel()))
+        return bad, {"assigned": arr.tolist(), "stored": None if st is None else st.tolist()}
     if fn == "equality":
         other = kwargs["other"]
         ca, cb = cls(_geo()), _types(other)(_geo())
